@@ -219,8 +219,9 @@ def deb822Wrap (le : Option (DNode → DNode → Bool)) (wrapPara : Option (DNod
   match mapM' (fun (pp : List DNode × DNode) =>
       match allTokens pp.1, some pp.2 with
       | some pre, some p' =>
-        -- an unterminated paragraph gets its line terminator (a NEWLINE token under the root)
-        let term : List DNode := match (leavesList [p']).getLast? with
+        -- an unterminated paragraph gets its line terminator (a NEWLINE token under the root):
+        -- `new_paragraph.0.last_token().map_or(true, |t| t.kind() == NEWLINE)` (lossless.rs:455-459)
+        let term : List DNode := match lastTok (p'.children) with
           | some t => if t.1 == .NEWLINE then [] else [Node.tok .NEWLINE ['\n']]
           | none => []
         some (withNewlines pre ++ [p'] ++ term)
